@@ -19,6 +19,13 @@ def _setup():
 
 def replay(q, args, kwargs):
     h = _setup()
+    if q.meta.get('fn') == 'history':
+        script = h.history_script(*args)
+        bad = h.problems(script)
+        if not bad:
+            return {'violated': False}
+        return {'violated': True, 'known': None, 'what': 'request history %r: %s' % (script, '; '.join(bad)),
+                'replay': {'history_args': list(args)}}
     n, a, b, c = args
     script = [a, b, c][:n]
     bad = h.problems(script)
@@ -35,23 +42,28 @@ def run(tier, seed):
     src = open(H).read()
     qs = []
     for n in (1, 2, 3):
-        slices = [None] if n < 3 else ['a == %d' % a for a in (range(13) if tier == 'thorough' else (0, 1, 5, 7, 8, 10, 11))]
+        slices = [None] if n < 3 else ['a == %d' % a for a in (range(16) if tier == 'thorough' else (0, 1, 5, 7, 8, 10, 11, 13, 15))]
         for i, sl in enumerate(slices):
             pre = 'n == %d' % n + (' and ' + sl if sl else '')
             new = 'script_n%d_%d' % (n, i)
             qs.append(Query(new, src + '\n\n' + copy_fn(src, 'check', new, pre), new, 'main', 300, per_path=30, meta={}, label='E'))
+    qs.append(Query('history', src, 'history', 'main', 300, per_path=30, meta={'fn': 'history'}, label='E'))
+    qs.append(Query('history__twin', src + '\n\n' + copy_fn(src, 'history', 'history__twin', 'warm == 0 and fail == 0 and edit_first == 0 and final == 0', twin=True),
+                    'history__twin', 'twin', 60, meta={'fn': 'history'}))
     qs.append(Query('check__twin', src + '\n\n' + copy_fn(src, 'check', 'check__twin', 'n == 1 and a == 0', twin=True), 'check__twin', 'twin', 60))
     runner.run_queries(PID, qs)
     rep.absorb(qs, replay)
     rep.functions = ['remote.Environment._call/configure/assist/location/lint/eval', 'server.Server.run/process/configure/assist/location/lint/eval',
                      'umsgpack.dumps/loads', 'compat.nstr']
     rep.bounds = ['request scripts of 1..3 requests over {configure, assist, location, lint, eval, unknown method, wrong arity, eval that raises, '
-                  'eval with an unserialisable result (unsupported type, lone surrogate, self-referential list, integer beyond 64 bits), assist with a bad position type}' + ('' if tier == 'thorough' else ' (3-request scripts: 7 of 13 first requests)')]
+                  'eval with an unserialisable result (unsupported type, lone surrogate, self-referential list, integer beyond 64 bits), assist with a bad position type, assist with a namedtuple position, eval returning tuple/list subclasses (namedtuple, struct_time, list subclass), lint of a text star-importing a module with a syntax error}' + ('' if tier == 'thorough' else ' (3-request scripts: 9 of 16 first requests)')]
+    rep.bounds.append('request histories (360): configure; a request analysing mod.py (5 kinds); one of 9 failing requests and an edit of mod.py (new content, new '
+                      'modification time) in either order; a request reading mod.py again (4 kinds)')
     rep.assumptions = ['solver-enumerated (E): every path is one concrete script',
                        'the connection pair is in memory; Server.run is driven one message at a time (poll() raises a harness BaseException when '
                        'the inbox is empty); the real subprocess, multiprocessing connection, OS failures and multi-MiB payloads are outside '
                        '(payload sizes are covered by C14)',
-                       'oracle: the in-process API on a second Project over the same files']
+                       'oracle: the in-process API on a new Project over the same files for every request (no history); edits are an overlay on supp.module.getmtime/open seen by both sides']
     rep.samples.append({'script': ['configure', 'eval_raises', 'assist']})
     return rep.finish('CrossHair enumerates request scripts; on each path the real client methods and the real server loop exchange real '
                       'MessagePack bytes: every reply equals the in-process result (tuples as lists), failures surface as exceptions with the '
@@ -60,5 +72,5 @@ def run(tier, seed):
 
 def replay_file(obj):
     class Q:
-        meta = {}
-    return report_violation(PID, replay(Q, obj['args'], {}))
+        meta = {'fn': 'history'} if 'history_args' in obj else {}
+    return report_violation(PID, replay(Q, obj.get('history_args') or obj['args'], {}))
